@@ -11,16 +11,17 @@ var assumeW1 = []string{
 	"a clean batch is evidence, not proof: interleavings and faults are sampled from a seeded stream",
 }
 
-var specs = map[string]propSpec{
-	"C01": {World: "ipam", Level: "exploration", Quick: 25, Thorough: 600, Rule: ruleW1, Assume: assumeW1},
-	"C04": {World: "ipam", Level: "exploration", Quick: 25, Thorough: 600, Rule: ruleW1, Assume: assumeW1},
-	"C10": {World: "ipam", Level: "exploration", Quick: 25, Thorough: 600, Rule: ruleW1, Assume: assumeW1},
-}
+var specs = map[string]propSpec{}
 
-var realVsStub = map[string]interface{}{
-	"ipam": map[string]string{
+var realVsStub = map[string]interface{}{}
+
+func init() {
+	for _, p := range []string{"C01", "C04", "C10"} {
+		specs[p] = propSpec{World: "ipam", Level: "exploration", Quick: 25, Thorough: 600, Rule: ruleW1, Assume: assumeW1}
+	}
+	realVsStub["ipam"] = map[string]string{
 		"real": "pkg/ipam/floatingip (crdIpam, store, pool config), pkg/ipam/schedulerplugin (Filter, Bind, unbind, Release, resync, event loop, Run/Init periodic loops, policies, crdKey), pkg/ipam/api (restful handlers on an in-process container), pkg/api/k8s/eventhandler, pkg/utils/{nets,page,httputil}, pkg/api/galaxy/constant",
 		"stub": "kube-apiserver/etcd, informers and listers, kube-scheduler, workload controllers, kubelet (simkube + world); crd.CrdCache (dynamic informer) behind its interface; cloud provider behind cloudprovider.CloudProvider; klog -> simlog",
 		"not_run": "pkg/ipam/server (flags, leader election, HTTP listeners, swagger, prometheus registry), cmd/*, gRPC cloud provider client",
-	},
+	}
 }
